@@ -34,6 +34,7 @@ type c13Case struct {
 	Extras  []string  `json:"extras,omitempty"`   // non-sample files (other suffixes)
 	ExtraSizes []int  `json:"extra_sizes,omitempty"` // their sizes (smaller, equal to and larger than a sample; other supported sample sizes)
 	DirBin  string    `json:"dir_bin,omitempty"`  // a directory whose name ends in .bin / .dat
+	InputStyle string `json:"input_style,omitempty"` // "" absolute | "rel" in | "dotrel" ./in | "parent" ../<dir>/in | "hidden" a directory whose name starts with a dot | "slash" trailing slash
 	ReportIn string   `json:"report_in,omitempty"` // "" = outside the input tree; otherwise a path relative to the input directory (the report is written among the samples)
 	Stale   int       `json:"stale_report_bytes,omitempty"` // the -o path already holds an older (longer) report of this many bytes
 	Workers int       `json:"workers"`
@@ -399,6 +400,9 @@ func checkC13(c c13Case) (Outcome, error) {
 	dir := newScratch("c13")
 	defer os.RemoveAll(dir)
 	in := filepath.Join(dir, "in")
+	if c.InputStyle == "hidden" {
+		in = filepath.Join(dir, ".in_hidden")
+	}
 	out := Outcome{Classes: []string{"scale:" + c.Scale}}
 	switch {
 	case len(c.Files) > c.Workers:
@@ -535,7 +539,23 @@ func checkC13(c c13Case) (Outcome, error) {
 		}
 		out.Classes = append(out.Classes, "race-detector-build")
 	}
-	pr := runTool(dir, budget, c.Procs, "", tool, "-i", in, "-o", rep, "-n", strconv.Itoa(c.Workers))
+	inArg := in
+	switch c.InputStyle {
+	case "rel":
+		inArg = "in"
+	case "dotrel":
+		inArg = "./in"
+	case "parent":
+		inArg = "../" + filepath.Base(dir) + "/in"
+	case "slash":
+		inArg = in + "/"
+	case "hidden":
+		inArg = ".in_hidden"
+	}
+	if c.InputStyle != "" {
+		out.Classes = append(out.Classes, "input-path:"+c.InputStyle)
+	}
+	pr := runTool(dir, budget, c.Procs, "", tool, "-i", inArg, "-o", rep, "-n", strconv.Itoa(c.Workers))
 	if strings.Contains(pr.stderr, "WARNING: DATA RACE") {
 		i := strings.Index(pr.stderr, "WARNING: DATA RACE")
 		return out, violation("race:"+c.Scale, "rddetector (%s, %d files, %d workers): the race detector reports a data race:\n%s", c.Scale, len(c.Files), c.Workers, clip(pr.stderr[i:], 1800))
@@ -642,6 +662,9 @@ func genC13(t *rapid.T) c13Case {
 	}
 	if c.Scale != "1E8" && c.Scale != "1E8hdr" && rapid.IntRange(0, 3).Draw(t, "report_in") == 0 {
 		c.ReportIn = filepath.Join(rapid.SampledFrom([]string{"", "a", "a/b"}).Draw(t, "rdir"), rapid.SampledFrom([]string{"0report.csv", "report.csv", "m.csv", "zz_report.csv", "RandomnessTestReport.csv"}).Draw(t, "rname"))
+	}
+	if c.Scale != "1E8" && c.Scale != "1E8hdr" {
+		c.InputStyle = rapid.SampledFrom([]string{"", "", "rel", "dotrel", "parent", "hidden", "slash"}).Draw(t, "input_style")
 	}
 	if v := envInt("VERIF_WORKERS", 0); v > 0 { // shards that pin "one worker, several files" (a worker handles consecutive files)
 		c.Workers = v
